@@ -23,6 +23,20 @@ def make_job(ctx, rng, route, n_sets):
         n = (max(n[0], 1 if n_sets == 1 else 4 * (n_sets - 1) + 1), 5, 9)
         arr = gen.cube(rng, n)
         return out, (lambda: NumpyConverter(arr).run(out, bits_per_voxel=8, blockshape=(4, 4, -1))), n_sets
+    if route in ('segy-8x8', 'numpy-8x8'):
+        # a layout whose plane sets are cut into disk blocks before queueing (one block per plane set here: the cube
+        # is not wider than a block, so the slice is the whole buffer)
+        n = (8 * n_sets - 1 if n_sets > 1 else 5, 5, 9)
+        arr = gen.cube(rng, n)
+        if route == 'numpy-8x8':
+            return out, (lambda: NumpyConverter(arr).run(out, bits_per_voxel=8, blockshape=(8, 8, -1))), n_sets
+        sgy = ctx.path('p8.sgy')
+        mksegy.make_segy(sgy, arr, fmt=5)
+
+        def go8():
+            with SegyConverter(sgy) as c:
+                c.run(out, bits_per_voxel=8, blockshape=(8, 8, -1))
+        return out, go8, n_sets
     if route == 'segy':
         n = (4 * n_sets - 1 if n_sets > 1 else 3, 4, 6)
         arr = gen.cube(rng, n)
@@ -91,8 +105,8 @@ def run(ctx):
     rng = gen.rng_for(ctx.seed, 'c16')
     model = core.Model()
     try:
-        for route in ('numpy', 'segy', '2d'):
-            for n_sets in (1, 2, 3):
+        for route in ('numpy', 'segy', '2d', 'segy-8x8', 'numpy-8x8'):
+            for n_sets in ((1, 2, 3) if '8x8' not in route else (2, 3)):
                 job = make_job(ctx, rng, route, n_sets)
                 out, fn, N = job
                 env.quiet(fn)
